@@ -27,6 +27,7 @@ type c19Cfg struct {
 	Handler bool   `json:"handler"`
 	Path    bool   `json:"path"`
 	GetSSE  bool   `json:"getsse"`
+	LateSid bool   `json:"latesid"` // the server issues the session id with the answer to the first request AFTER the handshake
 }
 
 type c19Scenario struct {
@@ -78,6 +79,7 @@ type c19Srv struct {
 	streamUp  chan struct{}
 	answered  chan struct{}
 	refuseDel bool
+	lateSid   bool
 	done      chan struct{}
 }
 
@@ -219,7 +221,7 @@ func (s *c19Srv) serve(w http.ResponseWriter, r *http.Request) {
 			return
 		}
 		w.Header().Set("Content-Type", "application/json")
-		if method == "initialize" {
+		if (method == "initialize") != s.lateSid {
 			w.Header().Set("Mcp-Session-Id", "sess-1")
 		}
 		io.WriteString(w, ans)
@@ -235,7 +237,7 @@ func (c19Handler) Handle(ctx context.Context, client *http.Client, req *http.Req
 
 func c19Run(sc c19Scenario) (res c19Result) {
 	res.ID = sc.ID
-	srv := &c19Srv{legacy: sc.Client == "legacy", streamUp: make(chan struct{}), answered: make(chan struct{}, 4), done: make(chan struct{}), handshake: "op:initialize"}
+	srv := &c19Srv{lateSid: sc.Cfg.LateSid, legacy: sc.Client == "legacy", streamUp: make(chan struct{}), answered: make(chan struct{}, 4), done: make(chan struct{}), handshake: "op:initialize"}
 	ts := httptest.NewServer(http.HandlerFunc(srv.serve))
 	defer func() { close(srv.done); closeClientConns(ts); closeTS(ts) }()
 	info := mcp.Implementation{Name: "v", Version: "0"}
